@@ -149,6 +149,12 @@ def rootLen : Option (Path × Mount) → Nat
   | none => 0
   | some b => b.1.length
 
+/-- `mntinfo, isMount := cp.mounts[p]; isMount && !cp.copyRegularFiles(mntinfo)` -/
+def skipMount (cfg : Cfg) (p : Path) : Bool :=
+  match cfg.mount p with
+  | some m => ! copyRegular m
+  | none => false
+
 /-- innermost mount containing `src` (first loop of `walkMount`) -/
 def srcMount (cfg : Cfg) (src : Path) : Option (Path × Mount) :=
   cfg.mounts.foldl (fun best e =>
@@ -268,8 +274,7 @@ def walk (h : Host) (cfg : Cfg) : Nat → Call → Plan → Res Plan
   | fuel + 1, .children dest src n (name :: names), st =>
     let src' := src ++ [name]
     if cfg.secrets.contains src' then walk h cfg fuel (.children dest src n names) st
-    else if (match cfg.mount src' with | some m => ! copyRegular m | none => false) then
-      walk h cfg fuel (.children dest src n names) st
+    else if skipMount cfg src' then walk h cfg fuel (.children dest src n names) st
     else
       (walk h cfg fuel (.host (dest ++ [name]) src' n false) st).bind fun st' =>
         walk h cfg fuel (.children dest src n names) st'
